@@ -239,6 +239,12 @@ def work(task):
       outcomes.add((op, out[0], out[1] if out[0] != 'script' else ''))
       if out[0] == 'script': bad('unbalanced-input-compiled/%s' % op, 'SQL was produced for unbalanced input', t, op)
       elif out[0] != 'diag': bad('internal-error/%s/%s' % (op, out[1]), 'rejected with %s instead of a diagnostic: %s' % (out[1], out[2][:120]), t, op)
+    # a block comment that is opened and never closed (finding F52): once per shard
+    if i == shard:
+      t = base_text + '\n/* this comment is never closed\nZzz9(1);\n'
+      stats['corrupted'] += 1; kinds['unterminated-comment'] = kinds.get('unterminated-comment', 0) + 1; stats['compiles'] += 1; stats['asserted'] += 1; stats['comparisons'] += 1
+      out = impl.Compiled(t).sql(c.preds[0])
+      if out[0] == 'script': bad('F52-unterminated-block-comment-accepted', 'SQL was produced for a program whose last block comment is never closed (the rest of the text is silently dropped)', t, 'unterminated-comment')
   by = {}
   for v in viol: by.setdefault(v['sig'], []).append(v)
   outv = []
